@@ -29,6 +29,18 @@ pub fn show_predicate(p: &Predicate) -> String {
     format!("nodes=[{}] edges={}", ns.join(","), show_nats(&es))
 }
 
+pub fn show_solution(s: &essential_types::solution::Solution) -> String {
+    let data: Vec<String> = s.predicate_data.iter().map(|d| show_words(d)).collect();
+    let ms: Vec<String> = s.state_mutations.iter().map(show_mutation).collect();
+    format!(
+        "{}/{} data=[{}] muts=[{}]",
+        hex_of(&s.predicate_to_solve.contract.0),
+        hex_of(&s.predicate_to_solve.predicate.0),
+        data.join(","),
+        ms.join(",")
+    )
+}
+
 pub fn show_mutation(m: &Mutation) -> String {
     format!("{}->{}", show_words(&m.key), show_words(&m.value))
 }
